@@ -1,12 +1,13 @@
 //! Registry of file kinds: how a valid file of each kind is generated (model + real noodles writer
-//! on a fault-free Vec) and how a source of that kind is read into an observation.
+//! on a fault-free Vec), how a model is written through the careful-user protocol to any sink, and
+//! how a source of that kind is read into an observation.
 
-use std::io::{self, Read};
+use std::io::{self, BufRead, Read, Write};
 use std::sync::Arc;
 
 use serde::{Deserialize, Serialize};
 
-use super::{Obs, ObsBuf, Source, align, observe, text, variant};
+use super::{Obs, ObsBuf, Source, align, index, observe, text, variant};
 use crate::genr::{bytes as gbytes, sam as gsam, text as gtext, vcf as gvcf};
 use crate::kernel::Rng;
 use crate::model::bgzf as mbgzf;
@@ -27,6 +28,11 @@ pub enum Kind {
     Gff,
     Gtf,
     Bed,
+    Bai,
+    Csi,
+    Tabix,
+    Gzi,
+    Fai,
 }
 
 pub const ALL_KINDS: &[Kind] = &[
@@ -44,17 +50,39 @@ pub const ALL_KINDS: &[Kind] = &[
     Kind::Gff,
     Kind::Gtf,
     Kind::Bed,
+    Kind::Bai,
+    Kind::Csi,
+    Kind::Tabix,
+    Kind::Gzi,
+    Kind::Fai,
 ];
 
 /// kinds whose readers C12 exercises under the delivery adversary
 pub const C12_KINDS: &[Kind] = ALL_KINDS;
 
-/// kinds whose files C13 truncates (the statement's list; plain text is excluded)
-pub const C13_KINDS: &[Kind] = &[Kind::Bgzf, Kind::SamGz, Kind::Bam, Kind::BamRaw, Kind::VcfGz, Kind::Bcf, Kind::BcfRaw];
+/// kinds whose files C13 truncates (the statement's list; plain text formats are excluded; the
+/// text index fai is an "index file" and is included)
+pub const C13_KINDS: &[Kind] = &[
+    Kind::Bgzf,
+    Kind::SamGz,
+    Kind::Bam,
+    Kind::BamRaw,
+    Kind::VcfGz,
+    Kind::Bcf,
+    Kind::BcfRaw,
+    Kind::Bai,
+    Kind::Csi,
+    Kind::Tabix,
+    Kind::Gzi,
+    Kind::Fai,
+];
+
+/// kinds whose writers C14 drives against the faulty sink
+pub const C14_KINDS: &[Kind] = ALL_KINDS;
 
 /// binary index kinds: a truncated file must give Err or an equal index
-pub fn index_kind(_k: Kind) -> bool {
-    false
+pub fn index_kind(k: Kind) -> bool {
+    matches!(k, Kind::Bai | Kind::Csi | Kind::Tabix | Kind::Gzi)
 }
 /// raw record streams: a cut inside a record must be an error
 pub fn record_stream_kind(k: Kind) -> bool {
@@ -73,6 +101,7 @@ pub fn variant_name(kind: Kind, v: u8) -> &'static str {
         Kind::Bed => "read_record",
         Kind::Bgzf => ["read_to_end", "read-777", "fill_buf"][(v % 3) as usize],
         Kind::Bam => ["records", "record_bufs", "read_record+positions"][(v % 3) as usize],
+        Kind::Bai | Kind::Csi | Kind::Tabix | Kind::Gzi | Kind::Fai => "read_index",
         _ => ["records", "record_bufs"][(v % 2) as usize],
     }
 }
@@ -94,22 +123,26 @@ impl Kind {
             Kind::Gff => "gff",
             Kind::Gtf => "gtf",
             Kind::Bed => "bed",
+            Kind::Bai => "bai",
+            Kind::Csi => "csi",
+            Kind::Tabix => "tabix",
+            Kind::Gzi => "gzi",
+            Kind::Fai => "fai",
         }
     }
     /// number of reading-protocol variants (lazy/buf records, ...)
     pub fn variants(self) -> u8 {
         match self {
-            Kind::Bgzf => 3,
-            Kind::Sam | Kind::SamGz | Kind::BamRaw => 2,
-            Kind::Vcf | Kind::VcfGz | Kind::Bcf | Kind::BcfRaw => 2,
-            Kind::Fasta => 3,
-            Kind::Fastq | Kind::Gff | Kind::Gtf => 2,
-            Kind::Bed => 1,
-            Kind::Bam => 3,
+            Kind::Bgzf | Kind::Bam | Kind::Fasta => 3,
+            Kind::Bed | Kind::Bai | Kind::Csi | Kind::Tabix | Kind::Gzi | Kind::Fai => 1,
+            _ => 2,
         }
     }
     pub fn is_bgzf_container(self) -> bool {
-        matches!(self, Kind::Bgzf | Kind::SamGz | Kind::Bam | Kind::VcfGz | Kind::Bcf)
+        matches!(
+            self,
+            Kind::Bgzf | Kind::SamGz | Kind::Bam | Kind::VcfGz | Kind::Bcf | Kind::Csi | Kind::Tabix
+        )
     }
 }
 
@@ -121,14 +154,31 @@ pub struct FileSpec {
     pub seed: u64,
 }
 
+/// What the harness knows about the content before any noodles writer is involved.
+pub enum Model {
+    /// byte payload split into write calls with flushes at the cut points
+    Bytes { payload: Vec<u8>, cuts: Vec<usize> },
+    Align { model: gsam::SamModel, parsed: align::Parsed },
+    Variant { model: gvcf::VcfModel, parsed: variant::Parsed },
+    Fasta(gtext::FastaModel, usize),
+    Fastq(gtext::FastqModel),
+    Lines(gtext::LinesModel),
+    Bai(noodles_bam::bai::Index),
+    Csi(noodles_csi::Index),
+    Tabix(noodles_tabix::Index),
+    Gzi(noodles_bgzf::gzi::Index),
+    Fai(noodles_fasta::fai::Index),
+}
+
 pub struct Made {
     pub spec: FileSpec,
+    pub model: Model,
     pub bytes: Arc<Vec<u8>>,
-    /// items a complete fault-free read yields (variant-independent part: H|, R| items)
+    /// items a complete fault-free read yields for model-backed variants (see `has_model`)
     pub expected: Vec<String>,
     /// structural boundaries (byte offsets into `bytes`): BGZF member starts, record/line starts
     pub boundaries: Vec<usize>,
-    /// for BGZF containers: the uncompressed stream
+    /// for BGZF containers: the block table and the uncompressed stream
     pub flat: Option<mbgzf::Flat>,
 }
 
@@ -154,11 +204,15 @@ fn line_boundaries(text: &[u8]) -> Vec<usize> {
     b
 }
 
-pub fn make(spec: &FileSpec) -> io::Result<Made> {
+fn other(e: impl std::fmt::Display) -> io::Error {
+    io::Error::other(e.to_string())
+}
+
+/// Phase 1 of `make`: the model (pure function of the spec).
+pub fn model(spec: &FileSpec) -> io::Result<Model> {
     let mut rng = Rng::new(spec.seed);
-    let (bytes, expected, boundaries, flat): (Vec<u8>, Vec<String>, Vec<usize>, Option<mbgzf::Flat>) = match spec.kind {
+    Ok(match spec.kind {
         Kind::Bgzf => {
-            use std::io::Write;
             let len = match spec.size_class {
                 0 => rng.usize_below(40),
                 1 => rng.usize_below(600),
@@ -171,115 +225,189 @@ pub fn make(spec: &FileSpec) -> io::Result<Made> {
                 seed: rng.next_u64(),
             }
             .bytes();
-            let mut w = noodles_bgzf::io::Writer::new(Vec::new());
-            // several members also for small files
             let n_flush = rng.usize_below(4);
             let mut cuts: Vec<usize> = (0..n_flush).map(|_| rng.usize_below(len + 1)).collect();
             cuts.sort();
-            let mut prev = 0;
-            for c in cuts {
-                w.write_all(&payload[prev..c])?;
-                w.flush()?;
-                prev = c;
-            }
-            w.write_all(&payload[prev..])?;
-            let file = w.finish()?;
-            let (b, flat) = bgzf_boundaries(&file);
-            let _ = payload;
-            (file, Vec::new(), b, flat)
+            Model::Bytes { payload, cuts }
         }
         Kind::Sam | Kind::SamGz | Kind::Bam | Kind::BamRaw => {
             let params = gsam::gen_params(&mut rng, spec.size_class);
             let model = gsam::generate(&params);
             let parsed = align::parse_model(&model)?;
-            let expected = align::expected_items(&model);
-            match spec.kind {
-                Kind::Sam => {
-                    let file = align::write_sam(Vec::new(), &parsed)?;
-                    let b = line_boundaries(&file);
-                    (file, expected, b, None)
-                }
-                Kind::SamGz => {
-                    let file = align::write_samgz(Vec::new(), &parsed)?;
-                    let (b, flat) = bgzf_boundaries(&file);
-                    (file, expected, b, flat)
-                }
-                Kind::Bam => {
-                    let mut file = Vec::new();
-                    align::write_bam(&mut file, &parsed)?;
-                    let (b, flat) = bgzf_boundaries(&file);
-                    (file, expected, b, flat)
-                }
-                _ => {
-                    let file = align::write_bam_raw(Vec::new(), &parsed)?;
-                    let b = bam_raw_boundaries(&file);
-                    (file, expected, b, None)
-                }
-            }
+            Model::Align { model, parsed }
         }
         Kind::Vcf | Kind::VcfGz | Kind::Bcf | Kind::BcfRaw => {
             let params = gvcf::gen_params(&mut rng, spec.size_class);
             let model = gvcf::generate(&params);
             let parsed = variant::parse_model(&model)?;
-            let expected = variant::expected_items(&model);
-            match spec.kind {
-                Kind::Vcf => {
-                    let file = variant::write_vcf(Vec::new(), &parsed)?;
-                    let b = line_boundaries(&file);
-                    (file, expected, b, None)
-                }
-                Kind::VcfGz => {
-                    let file = variant::write_vcfgz(Vec::new(), &parsed)?;
-                    let (b, flat) = bgzf_boundaries(&file);
-                    (file, expected, b, flat)
-                }
-                Kind::Bcf => {
-                    let mut file = Vec::new();
-                    variant::write_bcf(&mut file, &parsed)?;
-                    let (b, flat) = bgzf_boundaries(&file);
-                    (file, expected, b, flat)
-                }
-                _ => {
-                    let file = variant::write_bcf_raw(Vec::new(), &parsed)?;
-                    let b = bcf_raw_boundaries(&file);
-                    (file, expected, b, None)
+            Model::Variant { model, parsed }
+        }
+        Kind::Fasta => {
+            let p = gtext::gen_params(&mut rng, spec.size_class);
+            let w = p.width;
+            Model::Fasta(gtext::fasta(&p), w)
+        }
+        Kind::Fastq => Model::Fastq(gtext::fastq(&gtext::gen_params(&mut rng, spec.size_class))),
+        Kind::Gff => Model::Lines(gtext::gff(&gtext::gen_params(&mut rng, spec.size_class))),
+        Kind::Gtf => Model::Lines(gtext::gtf(&gtext::gen_params(&mut rng, spec.size_class))),
+        Kind::Bed => Model::Lines(gtext::bed(&gtext::gen_params(&mut rng, spec.size_class))),
+        Kind::Bai | Kind::Csi => {
+            // an index over a coordinate-sorted BAM (CSI: BAM or BCF)
+            let from_bcf = spec.kind == Kind::Csi && rng.bool();
+            if from_bcf {
+                let mut params = gvcf::gen_params(&mut rng, spec.size_class.max(1));
+                params.sorted = true;
+                let model = gvcf::generate(&params);
+                let parsed = variant::parse_model(&model)?;
+                let mut bcf = Vec::new();
+                variant::write_bcf(&mut bcf, &parsed)?;
+                Model::Csi(index::csi_normalise(&index::csi_from_bcf(&bcf)?)?)
+            } else {
+                let mut params = gsam::gen_params(&mut rng, spec.size_class.max(1));
+                params.sorted = true;
+                params.n_refs = params.n_refs.max(1);
+                let model = gsam::generate(&params);
+                let parsed = align::parse_model(&model)?;
+                let mut bam = Vec::new();
+                align::write_bam(&mut bam, &parsed)?;
+                if spec.kind == Kind::Bai {
+                    Model::Bai(index::bai_from_bam(&bam)?)
+                } else {
+                    Model::Csi(index::csi_normalise(&index::csi_from_bam(&bam)?)?)
                 }
             }
         }
-        Kind::Fasta => {
-            let m = gtext::fasta(&gtext::gen_params(&mut rng, spec.size_class));
-            let mut b = m.starts.clone();
-            b.push(m.text.len());
-            let e = text::fasta_expected(&m);
-            (m.text, e, b, None)
+        Kind::Tabix => {
+            let mut params = gvcf::gen_params(&mut rng, spec.size_class.max(1));
+            params.sorted = true;
+            let model = gvcf::generate(&params);
+            let parsed = variant::parse_model(&model)?;
+            let gz = variant::write_vcfgz(Vec::new(), &parsed)?;
+            Model::Tabix(index::tabix_from_vcfgz(&gz)?)
         }
-        Kind::Fastq => {
-            let m = gtext::fastq(&gtext::gen_params(&mut rng, spec.size_class));
-            let mut b = m.starts.clone();
-            b.push(m.text.len());
-            let e = text::fastq_expected(&m);
-            (m.text, e, b, None)
-        }
-        Kind::Gff | Kind::Gtf | Kind::Bed => {
-            let p = gtext::gen_params(&mut rng, spec.size_class);
-            let m = match spec.kind {
-                Kind::Gff => gtext::gff(&p),
-                Kind::Gtf => gtext::gtf(&p),
-                _ => gtext::bed(&p),
+        Kind::Gzi => {
+            let n = match spec.size_class {
+                0 => rng.usize_below(3),
+                1 => rng.usize_below(20),
+                2 => rng.usize_below(300),
+                _ => 300 + rng.usize_below(3000),
             };
-            let mut b = m.starts.clone();
-            b.push(m.text.len());
-            let e: Vec<String> = m.lines.iter().map(|l| format!("L|{l}")).collect();
-            (m.text, e, b, None)
+            let mut c = 0u64;
+            let mut u = 0u64;
+            let entries: Vec<(u64, u64)> = (0..n)
+                .map(|_| {
+                    c += 28 + rng.below(65_000);
+                    u += 1 + rng.below(65_536);
+                    (c, u)
+                })
+                .collect();
+            Model::Gzi(noodles_bgzf::gzi::Index::from(entries))
         }
+        Kind::Fai => {
+            let m = gtext::fasta(&gtext::gen_params(&mut rng, spec.size_class));
+            Model::Fai(index::fai_from_fasta(&m.text)?)
+        }
+    })
+}
+
+/// The careful-user write protocol of each kind (DESIGN.md §12) against any sink.
+pub fn write_to<W: Write>(kind: Kind, model: &Model, w: W) -> io::Result<()> {
+    match (kind, model) {
+        (Kind::Bgzf, Model::Bytes { payload, cuts }) => {
+            let mut w = noodles_bgzf::io::Writer::new(w);
+            let mut prev = 0;
+            for &c in cuts {
+                w.write_all(&payload[prev..c])?;
+                w.flush()?;
+                prev = c;
+            }
+            w.write_all(&payload[prev..])?;
+            w.finish().map(|_| ())
+        }
+        (Kind::Sam, Model::Align { parsed, .. }) => align::write_sam(w, parsed).map(|_| ()),
+        (Kind::SamGz, Model::Align { parsed, .. }) => align::write_samgz(w, parsed).map(|_| ()),
+        (Kind::Bam, Model::Align { parsed, .. }) => align::write_bam(w, parsed),
+        (Kind::BamRaw, Model::Align { parsed, .. }) => align::write_bam_raw(w, parsed).map(|_| ()),
+        (Kind::Vcf, Model::Variant { parsed, .. }) => variant::write_vcf(w, parsed).map(|_| ()),
+        (Kind::VcfGz, Model::Variant { parsed, .. }) => variant::write_vcfgz(w, parsed).map(|_| ()),
+        (Kind::Bcf, Model::Variant { parsed, .. }) => variant::write_bcf(w, parsed),
+        (Kind::BcfRaw, Model::Variant { parsed, .. }) => variant::write_bcf_raw(w, parsed).map(|_| ()),
+        (Kind::Fasta, Model::Fasta(m, width)) => text::write_fasta(w, m, *width),
+        (Kind::Fastq, Model::Fastq(m)) => text::write_fastq(w, m),
+        (Kind::Gff, Model::Lines(m)) => text::write_gff(w, m),
+        (Kind::Gtf, Model::Lines(m)) => text::write_gtf(w, m),
+        (Kind::Bed, Model::Lines(m)) => text::write_bed(w, m),
+        (Kind::Bai, Model::Bai(i)) => index::write_bai(w, i),
+        (Kind::Csi, Model::Csi(i)) => index::write_csi(w, i),
+        (Kind::Tabix, Model::Tabix(i)) => index::write_tabix(w, i),
+        (Kind::Gzi, Model::Gzi(i)) => index::write_gzi(w, i),
+        (Kind::Fai, Model::Fai(i)) => index::write_fai(w, i),
+        _ => Err(other("harness: kind/model mismatch")),
+    }
+}
+
+/// Does the delivered file come from the harness text (reader kinds fed hand-made text, incl.
+/// CRLF and odd line widths) rather than from the noodles writer?
+fn made_from_text(kind: Kind) -> bool {
+    matches!(kind, Kind::Fasta | Kind::Fastq | Kind::Gff | Kind::Gtf | Kind::Bed)
+}
+
+pub fn make(spec: &FileSpec) -> io::Result<Made> {
+    let model = model(spec)?;
+    let kind = spec.kind;
+    let bytes: Vec<u8> = if made_from_text(kind) {
+        match &model {
+            Model::Fasta(m, _) => m.text.clone(),
+            Model::Fastq(m) => m.text.clone(),
+            Model::Lines(m) => m.text.clone(),
+            _ => unreachable!(),
+        }
+    } else {
+        let mut v = Vec::new();
+        write_to(kind, &model, &mut v)?;
+        v
+    };
+    let (boundaries, flat) = if kind.is_bgzf_container() {
+        bgzf_boundaries(&bytes)
+    } else {
+        let b = match (&model, kind) {
+            (_, Kind::BamRaw) => bam_raw_boundaries(&bytes),
+            (_, Kind::BcfRaw) => bcf_raw_boundaries(&bytes),
+            (Model::Fasta(m, _), _) => with_end(&m.starts, bytes.len()),
+            (Model::Fastq(m), _) => with_end(&m.starts, bytes.len()),
+            (Model::Lines(m), _) => with_end(&m.starts, bytes.len()),
+            (_, Kind::Sam | Kind::Vcf | Kind::Fai) => line_boundaries(&bytes),
+            _ => vec![0, bytes.len()],
+        };
+        (b, None)
+    };
+    let expected: Vec<String> = match &model {
+        Model::Bytes { .. } => Vec::new(),
+        Model::Align { model, .. } => align::expected_items(model),
+        Model::Variant { model, .. } => variant::expected_items(model),
+        Model::Fasta(m, _) => text::fasta_expected(m),
+        Model::Fastq(m) => text::fastq_expected(m),
+        Model::Lines(m) => m.lines.iter().map(|l| format!("L|{l}")).collect(),
+        Model::Bai(i) => vec![format!("X|{i:?}")],
+        Model::Csi(i) => vec![format!("X|{i:?}")],
+        Model::Tabix(i) => vec![format!("X|{i:?}")],
+        Model::Gzi(i) => vec![format!("X|{i:?}")],
+        Model::Fai(i) => i.as_ref().iter().map(|r| format!("R|{r:?}")).collect(),
     };
     Ok(Made {
         spec: spec.clone(),
+        model,
         bytes: Arc::new(bytes),
         expected,
         boundaries,
         flat,
     })
+}
+
+fn with_end(starts: &[usize], len: usize) -> Vec<usize> {
+    let mut b = starts.to_vec();
+    b.push(len);
+    b
 }
 
 /// Record starts in an uncompressed BAM stream (harness parse of the documented layout).
@@ -330,45 +458,32 @@ pub fn bcf_raw_boundaries(b: &[u8]) -> Vec<usize> {
     out
 }
 
-pub fn hex(b: &[u8]) -> String {
-    // compact content identity for byte payloads: length + hash + first bytes
-    format!(
-        "len={} hash={:016x} head={:02x?}",
-        b.len(),
-        crate::kernel::prng::hash_bytes(b),
-        &b[..b.len().min(8)]
-    )
-}
-
 /// Reads a source of the given kind to the end with reading-protocol variant `variant`.
 pub fn read(kind: Kind, variant: u8, src: Source) -> Obs {
     observe(|o| {
         let ObsBuf { items, bytes: out } = o;
         match kind {
-        Kind::Bgzf => {
-            let mut r = noodles_bgzf::io::Reader::new(src.into_read());
-            match variant % 3 {
-                0 => {
-                    r.read_to_end(out)?;
-                }
-                1 => {
-                    // small fixed-size reads
-                    let mut buf = [0u8; 777];
-                    loop {
-                        let n = match r.read(&mut buf) {
-                            Ok(n) => n,
-                            Err(e) if e.kind() == io::ErrorKind::Interrupted => continue,
-                            Err(e) => return Err(e),
-                        };
-                        if n == 0 {
-                            break;
-                        }
-                        out.extend_from_slice(&buf[..n]);
+            Kind::Bgzf => {
+                let mut r = noodles_bgzf::io::Reader::new(src.into_read());
+                match variant % 3 {
+                    0 => {
+                        r.read_to_end(out)?;
                     }
-                }
-                _ => {
-                    use std::io::BufRead;
-                    loop {
+                    1 => {
+                        let mut buf = [0u8; 777];
+                        loop {
+                            let n = match r.read(&mut buf) {
+                                Ok(n) => n,
+                                Err(e) if e.kind() == io::ErrorKind::Interrupted => continue,
+                                Err(e) => return Err(e),
+                            };
+                            if n == 0 {
+                                break;
+                            }
+                            out.extend_from_slice(&buf[..n]);
+                        }
+                    }
+                    _ => loop {
                         let w = match r.fill_buf() {
                             Ok(w) => w,
                             Err(e) if e.kind() == io::ErrorKind::Interrupted => continue,
@@ -380,28 +495,32 @@ pub fn read(kind: Kind, variant: u8, src: Source) -> Obs {
                         let n = w.len();
                         out.extend_from_slice(w);
                         r.consume(n);
-                    }
+                    },
                 }
+                items.push(format!("P|{}", u64::from(r.virtual_position())));
+                Ok(())
             }
-            items.push(format!("P|{}", u64::from(r.virtual_position())));
-            Ok(())
-        }
-        Kind::Sam => align::read_sam(src, mode(variant), items),
-        Kind::SamGz => align::read_samgz(src, mode(variant), items),
-        Kind::Bam => match variant % 3 {
-            2 => align::read_bam_positions(src, items),
-            v => align::read_bam(src, mode(v), items),
-        },
-        Kind::BamRaw => align::read_bam_raw(src, mode(variant), items),
-        Kind::Vcf => variant::read_vcf(src, mode(variant), items),
-        Kind::VcfGz => variant::read_vcfgz(src, mode(variant), items),
-        Kind::Bcf => variant::read_bcf(src, mode(variant), items),
-        Kind::BcfRaw => variant::read_bcf_raw(src, mode(variant), items),
-        Kind::Fasta => text::read_fasta(src, variant, items),
-        Kind::Fastq => text::read_fastq(src, variant, items),
-        Kind::Gff => text::read_gff(src, variant, items),
-        Kind::Gtf => text::read_gtf(src, variant, items),
-        Kind::Bed => text::read_bed(src, variant, items),
+            Kind::Sam => align::read_sam(src, mode(variant), items),
+            Kind::SamGz => align::read_samgz(src, mode(variant), items),
+            Kind::Bam => match variant % 3 {
+                2 => align::read_bam_positions(src, items),
+                v => align::read_bam(src, mode(v), items),
+            },
+            Kind::BamRaw => align::read_bam_raw(src, mode(variant), items),
+            Kind::Vcf => variant::read_vcf(src, mode(variant), items),
+            Kind::VcfGz => variant::read_vcfgz(src, mode(variant), items),
+            Kind::Bcf => variant::read_bcf(src, mode(variant), items),
+            Kind::BcfRaw => variant::read_bcf_raw(src, mode(variant), items),
+            Kind::Fasta => text::read_fasta(src, variant, items),
+            Kind::Fastq => text::read_fastq(src, variant, items),
+            Kind::Gff => text::read_gff(src, variant, items),
+            Kind::Gtf => text::read_gtf(src, variant, items),
+            Kind::Bed => text::read_bed(src, variant, items),
+            Kind::Bai => index::read_bai(src.into_read(), items),
+            Kind::Csi => index::read_csi(src.into_read(), items),
+            Kind::Tabix => index::read_tabix(src.into_read(), items),
+            Kind::Gzi => index::read_gzi(src.into_read(), items),
+            Kind::Fai => index::read_fai(src.into_buf(), items),
         }
     })
 }
@@ -414,22 +533,21 @@ fn mode(variant: u8) -> align::Mode {
     }
 }
 
-/// Does `Made.expected` describe what this variant yields (else only End::Eof is checked by the
-/// domain self-test)?
+/// Does `Made.expected` describe what this variant yields (else the domain self-test only checks
+/// for End::Eof)?
 pub fn has_model(kind: Kind, variant: u8) -> bool {
     match kind {
-        Kind::Fasta | Kind::Fastq => variant == 0,
-        Kind::Gff | Kind::Gtf => variant == 0,
+        Kind::Fasta | Kind::Fastq | Kind::Gff | Kind::Gtf => variant == 0,
         Kind::Bed => false,
         _ => true,
     }
 }
 
-/// The H|/R| part of an observation (positions and other variant-specific items removed).
+/// The content part of an observation (positions and other variant-specific items removed).
 pub fn content_items(items: &[String]) -> Vec<String> {
     items
         .iter()
-        .filter(|s| s.starts_with("H|") || s.starts_with("R|") || s.starts_with("L|"))
+        .filter(|s| s.starts_with("H|") || s.starts_with("R|") || s.starts_with("L|") || s.starts_with("X|"))
         .cloned()
         .collect()
 }
